@@ -6,7 +6,6 @@ that ReaderError stores as .position" - through reaching definitions on the CFG,
 conditions / index arithmetic as evaluated conditions / linear forms, never as text.
 """
 import ast
-import copy
 
 from . import astutil as A
 from . import charworld as CW
@@ -58,9 +57,14 @@ def baseline_functions():
 
 
 def is_new_helper(f):
-    """f does not exist in the reference inventory: a helper introduced by a refactoring."""
+    """f does not exist in the reference inventory: a helper introduced by a refactoring.  (A method that was only moved
+    to another class of its module - a new mixin / base - is not new.)"""
     b = baseline_functions()
-    return b is not None and f.qualname not in b
+    if b is None or f.qualname in b:
+        return False
+    if not _BASELINE[1:]:
+        _BASELINE.append({(q.split('.')[0], q.rsplit('.', 1)[1]) for q in b})
+    return (f.module.name, f.name) not in _BASELINE[1]
 
 
 def dead_helpers(repo):
@@ -350,29 +354,43 @@ def reach_under(cfg, atom, starts=None, blocked=()):
     return seen
 
 
+def clone(node, repl):
+    """copy of an expression (without parent links); repl(node) may supply a replacement for a sub-expression."""
+    r = repl(node)
+    if r is not None:
+        return r
+    new = type(node)()
+    for field, val in ast.iter_fields(node):
+        if isinstance(val, list):
+            setattr(new, field, [clone(x, repl) if isinstance(x, ast.AST) else x for x in val])
+        elif isinstance(val, ast.AST):
+            setattr(new, field, clone(val, repl))
+        else:
+            setattr(new, field, val)
+    return ast.copy_location(new, node)
+
+
 def subst_attrs(expr, subs):
-    """copy of expr with every expression whose normal form is a key of subs replaced by the constant value."""
-    class T(ast.NodeTransformer):
-        def visit(self, node):
-            if isinstance(node, ast.expr):
-                k = norm(node)
-                if k in subs:
-                    return ast.copy_location(ast.Constant(subs[k]), node)
-            return self.generic_visit(node)
-    return ast.fix_missing_locations(T().visit(copy.deepcopy(expr)))
+    """copy of expr with every sub-expression whose normal form is a key of subs replaced by the constant value."""
+    def repl(n):
+        if isinstance(n, ast.expr) and not isinstance(n, ast.Constant) and norm(n) in subs:
+            return ast.copy_location(ast.Constant(subs[norm(n)]), n)
+        return None
+    return ast.fix_missing_locations(clone(expr, repl))
 
 
 # ======================================================================================================================
 # linear forms
 # ======================================================================================================================
 
-def linear_form(e, atom_name=None):
+def linear_form(e, atom_name=None, expand=None):
     """{atom text: coefficient, '': constant} of an expression built from + - and atoms; None if not linear.
-    atom_name(expr) may give an atom a canonical (role) name instead of its source text."""
+    atom_name(expr) may give an atom a canonical (role) name instead of its source text; expand(expr) may give the
+    linear form an atom stands for (a local holding an intermediate result)."""
     if isinstance(e, ast.Constant) and isinstance(e.value, int) and not isinstance(e.value, bool):
         return {'': e.value}
     if isinstance(e, ast.BinOp) and isinstance(e.op, (ast.Add, ast.Sub)):
-        l, r = linear_form(e.left, atom_name), linear_form(e.right, atom_name)
+        l, r = linear_form(e.left, atom_name, expand), linear_form(e.right, atom_name, expand)
         if l is None or r is None:
             return None
         out = dict(l)
@@ -381,18 +399,51 @@ def linear_form(e, atom_name=None):
             out[k] = out.get(k, 0) + sign * v
         return {k: v for k, v in out.items() if v != 0 or k == ''}
     if isinstance(e, ast.UnaryOp) and isinstance(e.op, ast.USub):
-        l = linear_form(e.operand, atom_name)
+        l = linear_form(e.operand, atom_name, expand)
         return None if l is None else {k: -v for k, v in l.items()}
     if isinstance(e, ast.UnaryOp) and isinstance(e.op, ast.UAdd):
-        return linear_form(e.operand, atom_name)
+        return linear_form(e.operand, atom_name, expand)
     if isinstance(e, ast.BinOp) and isinstance(e.op, ast.Mult):
         for a, b in ((e.left, e.right), (e.right, e.left)):
             if isinstance(a, ast.Constant) and isinstance(a.value, int):
-                l = linear_form(b, atom_name)
+                l = linear_form(b, atom_name, expand)
                 return None if l is None else {k: v * a.value for k, v in l.items()}
         return None
+    if expand is not None:
+        x = expand(e)
+        if x is not None:
+            return dict(x)
     k = atom_name(e) if atom_name else None
     return {k or norm(e): 1}
+
+
+def _stable(flow, x, node, at):
+    """nothing the expression x (evaluated at node) reads is assigned between node and at"""
+    attrs = {norm(a) for a in ast.walk(x) if isinstance(a, ast.Attribute)}
+    names = {a.id for a in ast.walk(x) if isinstance(a, ast.Name)}
+    for n in flow.between(node, at):
+        if n is node:
+            return False            # a loop carries the definition around
+        for sub in own_exprs(n):
+            if isinstance(sub, ast.Attribute) and isinstance(sub.ctx, ast.Store) and norm(sub) in attrs:
+                return False
+            if isinstance(sub, ast.Name) and isinstance(sub.ctx, ast.Store) and sub.id in names:
+                return False
+    return True
+
+
+def lf_at(flow, expr, at, atom_name=None, depth=0):
+    """linear form of expr as evaluated at CFG node `at`; a local that holds an intermediate result (one definition, nothing
+    it reads reassigned since) is replaced by the form of that result.  atom_name(expr, node) names atoms by role."""
+    def expand(e):
+        if isinstance(e, ast.Name) and depth < 4:
+            og = origins(flow, e, at)
+            if len(og) == 1 and og[0][0] == 'expr' and not isinstance(og[0][1], ast.Name):
+                k, x, node, i = og[0]
+                if isinstance(x, (ast.BinOp, ast.UnaryOp, ast.Constant)) and _stable(flow, x, node, at):
+                    return lf_at(flow, x, node, atom_name, depth + 1)
+        return None
+    return linear_form(expr, (lambda e: atom_name(e, at)) if atom_name else None, expand)
 
 
 def _clean(f):
@@ -406,12 +457,13 @@ def lf_sub(a, b):
     return out
 
 
-def inequality(test, atom_name=None):
+def inequality(test, lf=None):
     """a comparison `l OP r` with OP in < <= > >= over linear forms as (D, strict): it holds iff D > 0 (strict) or
-    D >= 0; None if the test is not such a comparison."""
+    D >= 0; None if the test is not such a comparison.  lf(expr) computes the forms (default: linear_form)."""
     if not (isinstance(test, ast.Compare) and len(test.ops) == 1):
         return None
-    l, r = linear_form(test.left, atom_name), linear_form(test.comparators[0], atom_name)
+    lf = lf or linear_form
+    l, r = lf(test.left), lf(test.comparators[0])
     if l is None or r is None:
         return None
     op = test.ops[0]
@@ -603,7 +655,11 @@ def _refill_guard(f, L, maxoff):
         return ('missing', None, None, None)
     g = guards[0]
     okg = False
-    ineq = inequality(g.test)
+    flow = Flow(f)
+    tests = flow.cfg.nodes_of(g.test)
+    if not tests:
+        return ('missing', None, None, None)
+    ineq = inequality(g.test, lambda e: lf_at(flow, e, tests[0]))
     if ineq is not None:
         D, strict = ineq
         # fires iff pointer + a - len(buffer) >= 0
@@ -615,31 +671,91 @@ def _refill_guard(f, L, maxoff):
             if set(a) <= {L, ''} and a.get(L, 0) == maxoff.get(L, 0) and a[''] >= maxoff.get('', 0):
                 okg = True
     upd = [c for c in A.calls_in(g.body) if is_self_call(c, f, 'update')][0]
-    u = linear_form(upd.args[0]) if upd.args else None
+    u = lf_at(flow, upd.args[0], flow.node_of(upd)) if upd.args else None
     oku = u is not None and set(_clean(u)) <= {L, ''} and u.get(L, 0) == 1 and u.get('', 0) >= maxoff.get('', 0) + 1
     return ('ok' if okg and oku else 'guard' if not okg else 'amount', g, upd, u)
 
 
-def _reads_after_increment(f):
-    """does the consuming loop of Reader.forward read buffer[pointer] again after it has advanced the pointer (the
-    one-character look-ahead of the CR LF test)?"""
-    flow = Flow(f)
-    cfg = flow.cfg
-    res = False
-    for loop in walk_function(f.node):
-        if not isinstance(loop, ast.While):
-            continue
-        head = cfg.entry_of(loop)
-        incs = [flow.node_of(s) for s in ast.walk(loop) if isinstance(s, ast.AugAssign) and is_self_attr(s.target, f, 'pointer')
-                and isinstance(s.op, ast.Add)]
-        for inc in incs:
-            later = cfg.reach([m for (m, lab) in cfg.succ[inc]], blocked=[head] if head is not None else [])
-            for n in later:
-                for sub in own_exprs(n):
-                    if isinstance(sub, ast.Subscript) and isinstance(sub.ctx, ast.Load) and is_self_attr(sub.slice, f, 'pointer') \
-                            and alias_of_self_attr(flow, sub.value, n, 'buffer'):
-                        res = True
-    return res
+class ConsumingLoop:
+    """the loop of Reader.forward that consumes characters (the one that advances self.pointer).  Reads of the buffer in it
+    are identified by their offset from the pointer at the start of the iteration - 0: the consumed character, 1: the one
+    after it - whatever local they are kept in and whether they happen before or after the increment."""
+
+    def __init__(self, f):
+        self.f = f
+        self.flow = Flow(f)
+        cfg = self.flow.cfg
+        incs = [n for n in walk_function(f.node) if isinstance(n, ast.AugAssign) and is_self_attr(n.target, f, 'pointer')]
+        if not incs:
+            raise AnalysisError('%s: the pointer is not advanced' % f.qualname)
+        loops = {}
+        for a in incs:
+            p = getattr(a, '_parent', None)
+            while p is not None and not isinstance(p, (ast.While, ast.For)):
+                p = getattr(p, '_parent', None)
+            if p is None:
+                raise AnalysisError('%s: the pointer is advanced outside a loop' % f.qualname)
+            loops[id(p)] = p
+        if len(loops) != 1:
+            raise AnalysisError('%s: more than one consuming loop' % f.qualname)
+        self.loop = list(loops.values())[0]
+        if isinstance(self.loop, ast.While):
+            self.head = cfg.entry_of(self.loop)
+        else:
+            hn = cfg.nodes_of(self.loop.iter)
+            self.head = hn[0] if hn else None
+        if self.head is None:
+            raise AnalysisError('%s: consuming loop not on the control-flow graph' % f.qualname)
+        self.incs = [self.flow.node_of(s) for s in incs]
+        self.in_iter = cfg.reach([m for (m, lab) in cfg.succ[self.head]], blocked=[self.head])
+
+    def incs_before(self, r):
+        """how many pointer increments have certainly happened in this iteration when node r executes; None if it depends
+        on the path."""
+        cfg = self.flow.cfg
+        k = 0
+        for p in self.incs:
+            a = p.ast
+            if not (isinstance(a.op, ast.Add) and isinstance(a.value, ast.Constant) and a.value.value == 1):
+                return None
+            if p is r:
+                continue
+            maybe = p in self.in_iter and r in cfg.reach([m for (m, lab) in cfg.succ[p]], blocked=[self.head])
+            if not maybe:
+                continue
+            certainly = r not in cfg.reach([m for (m, lab) in cfg.succ[self.head]], blocked=[self.head, p])
+            if not certainly:
+                return None
+            k += 1
+        return k
+
+    def is_buffer_read(self, e, node):
+        return isinstance(e, ast.Subscript) and isinstance(e.ctx, ast.Load) and not isinstance(e.slice, ast.Slice) \
+            and alias_of_self_attr(self.flow, e.value, node, 'buffer')
+
+    def read_offset(self, e, node):
+        """e (evaluated at node) reads buffer[pointer + k]: the offset of that character from the iteration's start"""
+        if not self.is_buffer_read(e, node):
+            return None
+        ptr = '%s.pointer' % self_name(self.f)
+        lf = linear_form(e.slice)
+        if lf is None or lf.get(ptr) != 1 or set(_clean(lf)) - {ptr, ''}:
+            return None
+        if node not in self.in_iter:
+            return None
+        b = self.incs_before(node)
+        return None if b is None else lf.get('', 0) + b
+
+    def reads(self):
+        """[(subscript, offset or None)] for every character read of the buffer inside the loop"""
+        out = []
+        for n in self.in_iter:
+            if n.ast is None:
+                continue
+            for sub in own_exprs(n):
+                if self.is_buffer_read(sub, n):
+                    out.append((sub, self.read_offset(sub, n)))
+        return out
 
 
 def r_lookahead_sufficient(ctx, repo):
@@ -654,8 +770,12 @@ def r_lookahead_sufficient(ctx, repo):
             raise AnalysisError('Reader.%s: expected (self, length)' % name)
         L = f.params[1]
         # largest offset read relative to the entry pointer
-        if name == 'forward' and _reads_after_increment(f):
-            maxoff = {L: 1, '': 0}
+        if name == 'forward':
+            # iteration i (0-based) reads up to offset i + k; the last one is i = length - 1
+            reads = ConsumingLoop(f).reads()
+            if not reads or any(off is None for sub, off in reads):
+                raise AnalysisError('Reader.forward: a read of the buffer at an offset that is not pointer + constant')
+            maxoff = {L: 1, '': max(off for sub, off in reads) - 1}
         else:
             maxoff = {L: 1, '': -1}
         st, g, upd, u = _refill_guard(f, L, maxoff)
@@ -685,7 +805,8 @@ def r_lookahead_sufficient(ctx, repo):
                 continue
             ups = [c for c in A.calls_in(h.body) if is_self_call(c, f, 'update')]
             if ups and ups[0].args:
-                u = linear_form(ups[0].args[0])
+                pflow = Flow(f)
+                u = lf_at(pflow, ups[0].args[0], pflow.node_of(ups[0]))
                 if u is not None and set(_clean(u)) <= {idx, ''} and u.get(idx, 0) == 1 and u.get('', 0) >= 1:
                     ok = True
             break
@@ -809,19 +930,17 @@ def r_positions(ctx, repo):
     if not sites:
         raise AnalysisError('Reader.check_printable: no ReaderError is raised')
 
-    def match_start(node):
+    def match_start(e, node):
         """<m>.start() with m the result of <regex>.search(<the chunk parameter>) -> the offset of the offending character"""
-        def name(e):
-            if isinstance(e, ast.Call) and not e.args and isinstance(e.func, ast.Attribute) and e.func.attr == 'start':
-                og = origins(flow, e.func.value, node)
-                if og and all(k == 'expr' and isinstance(x, ast.Call) and isinstance(x.func, ast.Attribute) and x.func.attr == 'search'
-                              and len(x.args) == 1 and isinstance(x.args[0], ast.Name) and x.args[0].id == f.params[1]
-                              for k, x, n, i in og):
-                    return '<match>.start()'
-            return None
-        return name
+        if isinstance(e, ast.Call) and not e.args and isinstance(e.func, ast.Attribute) and e.func.attr == 'start':
+            og = origins(flow, e.func.value, node)
+            if og and all(k == 'expr' and isinstance(x, ast.Call) and isinstance(x.func, ast.Attribute) and x.func.attr == 'search'
+                          and len(x.args) == 1 and isinstance(x.args[0], ast.Name) and x.args[0].id == f.params[1]
+                          for k, x, n, i in og):
+                return '<match>.start()'
+        return None
     want = {'self.index': 1, 'len(self.buffer)': 1, 'self.pointer': -1, '<match>.start()': 1}
-    forms = [(_clean(linear_form(e, match_start(node))), e) for c, h, vals in sites for e, node in vals]
+    forms = [(_clean(lf_at(flow, e, node, match_start)), e) for c, h, vals in sites for e, node in vals]
     c0 = sites[0][0]
     if forms and all(fm == want for fm, e in forms):
         rule.ok(f.loc(c0), 'position = index + (len(buffer) - pointer) + match.start()')
@@ -844,11 +963,11 @@ def r_positions(ctx, repo):
                 continue
             first = first or (h, c)
 
-            def exc_start(e, hname=hname):
+            def exc_start(e, node, hname=hname):
                 return '<exc>.start' if isinstance(e, ast.Attribute) and e.attr == 'start' and isinstance(e.value, ast.Name) \
                     and e.value.id == hname else None
             for e, node in vals:
-                forms.append((_clean(linear_form(e, exc_start)), e))
+                forms.append((_clean(lf_at(hflow, e, node, exc_start)), e))
     w1 = {'self.stream_pointer': 1, 'len(self.raw_buffer)': -1, '<exc>.start': 1}
     w2 = {'<exc>.start': 1}
     fl = [fm for fm, e in forms]
@@ -951,24 +1070,27 @@ def r_pyx_input_cache(ctx, repo):
     LEN, POS = '%s.stream_cache_len' % P, '%s.stream_cache_pos' % P
     remaining = {LEN: 1, POS: -1}
 
-    def is_remaining(e):
-        return _clean(linear_form(e)) == remaining
+    def is_remaining(e, at):
+        return _clean(lf_at(flow, e, at)) == remaining
 
     # 1. copy length limited to what the cache holds
     limited = False
     for n in walk_function(f.node):
         if isinstance(n, ast.If):
-            iq = inequality(n.test)
+            tn = cfg.nodes_of(n.test)
+            iq = inequality(n.test, lambda e: lf_at(flow, e, tn[0])) if tn else None
             if iq is not None and _clean(iq[0]) == {p_size: 1, LEN: -1, POS: 1}:
                 for s in n.body:
                     if isinstance(s, ast.Assign) and len(s.targets) == 1 and isinstance(s.targets[0], ast.Name) \
-                            and s.targets[0].id == p_size and is_remaining(s.value):
+                            and s.targets[0].id == p_size and is_remaining(s.value, flow.node_of(s)):
                         limited = True
         elif isinstance(n, ast.Assign) and len(n.targets) == 1 and isinstance(n.targets[0], ast.Name) and n.targets[0].id == p_size \
                 and isinstance(n.value, ast.Call) and isinstance(n.value.func, ast.Name) and n.value.func.id == 'min' \
                 and len(n.value.args) == 2 and not n.value.keywords:
             a, b = n.value.args
-            if (isinstance(a, ast.Name) and a.id == p_size and is_remaining(b)) or (isinstance(b, ast.Name) and b.id == p_size and is_remaining(a)):
+            at = flow.node_of(n)
+            if (isinstance(a, ast.Name) and a.id == p_size and is_remaining(b, at)) or \
+                    (isinstance(b, ast.Name) and b.id == p_size and is_remaining(a, at)):
                 limited = True
     # 5. the cache is dropped only when exhausted
     drops = [flow.node_of(s) for s, e in M.find(f.node, '_N_p.stream_cache = None', env)]
